@@ -17,7 +17,9 @@ CONSTANTS MAXW, MAXH,      \* framebuffers 1..MAXW x 1..MAXH
           REORIENT,        \* include set_orientation calls (C10)
           BIGSET,          \* full rectangle / stream alphabet or the reduced one
           SAMPLE,          \* export every SAMPLE-th explored transition (0 = none)
-          STREAMLEN        \* > 0: only draw_iter, with every stream of that length or less over the cells (C03)
+          STREAMLEN,       \* > 0: only draw_iter, with every stream of that length or less over the cells (C03)
+          TWOCOLOURS       \* every call draws from the colours {1, 2}: later calls repeat colours of earlier ones, which
+                           \* is what state surviving between calls (staging buffers, bus caches) needs to show
 
 VARIABLES cfg,    \* configuration (framebuffer, window, options)
           d,      \* driver-layer state (Driver.tla)
@@ -106,12 +108,12 @@ Next ==
   \/ \E p \in InCells, c \in {1, 2} : Do([name |-> "set_pixel", x |-> p[1], y |-> p[2], c |-> c])
   \/ \E r \in {q \in UseRects : RectInBox(cfg, o, q) /\ ~REmpty(q)} :
         Do([name |-> "set_pixels", win |-> <<r[1], r[2], RRight(r), RBottom(r)>>,
-            colors |-> [i \in 1 .. r[3] * r[4] |-> 10 + i]])
-  \/ \E r \in UseRects, c \in {3} : Do([name |-> "fill_solid", rect |-> r, c |-> c])
-  \/ \E r \in UseRects : \E len \in Lens(r) :
-        Do([name |-> "fill_contiguous", rect |-> r, colors |-> [start |-> 20, len |-> len]])
+            colors |-> [i \in 1 .. r[3] * r[4] |-> IF TWOCOLOURS THEN 1 + ((i + 1) % 2) ELSE 10 + i]])
+  \/ \E r \in UseRects, c \in (IF TWOCOLOURS THEN {1, 2} ELSE {3}) : Do([name |-> "fill_solid", rect |-> r, c |-> c])
+  \/ \E r \in UseRects : \E len \in (IF TWOCOLOURS THEN {-1} ELSE Lens(r)) :
+        Do([name |-> "fill_contiguous", rect |-> r, colors |-> [start |-> IF TWOCOLOURS THEN 1 ELSE 20, len |-> len]])
   \/ \E st \in Streams : Do([name |-> "draw_iter", px |-> st])
-  \/ Do([name |-> "clear", c |-> 4])
+  \/ \E c \in (IF TWOCOLOURS THEN {1, 2} ELSE {4}) : Do([name |-> "clear", c |-> c])
   \/ REORIENT /\ \E oo \in Orientations : Do([name |-> "set_orientation", rot |-> oo.rot, mir |-> oo.mir])
 
 Spec == Init /\ [][Next]_vars
